@@ -187,18 +187,20 @@ theorem loop_credits_each_datagram_once (pers : Persp) (cav : Bool) (lops : List
       rw [(datagram_credited_once L.h size pkts).1, Nat.add_assoc]
 
 /-- the shape of connection.go that `SendLoop.lean` relies on, regenerated from the source (name-based call
-graph of the file): packets are registered with the handler only by `registerPackedShortHeaderPacket` and
-`sendPackedCoalescedPacket`; the only calls into the sending functions from outside `triggerSending`'s call
-tree are the run loop calling `triggerSending`, and `handleShortHeaderPacket` answering a 1-RTT packet from a
-new remote address with ONE path-probe packet (possible only with 1-RTT keys, i.e. after the handshake
-completed and the original address was validated; the amplification rule for NEW paths, RFC 9000 §8.2.1, is
-outside this property's model); and the only function that writes to the connection directly is
-`sendConnectionClose`.  A new send site makes this theorem, and with it the check, fail. -/
+graph of the file).  The compared fact `outsideSends` is SEMANTIC — it contains no helper name, so extracting or
+renaming helpers is not an alarm: it lists every way to register a packet with the handler or to put one on the
+wire WITHOUT passing through `triggerSending` (the gate that consults `SendMode`), as `<where>:<what>`:
+  * `recv1rtt:wire:SendProbe` + `recv1rtt:register` — on the receive path of `handleShortHeaderPacket` (through
+    any chain of helpers) a 1-RTT packet from a new remote address is answered with ONE path-probe packet, sent
+    with `sendQueue.SendProbe` and registered (possible only with 1-RTT keys, i.e. after the handshake completed
+    and the original address was validated; the amplification rule for NEW paths, RFC 9000 §8.2.1, is outside
+    this property's model);
+  * `other:wire:Write` — one direct `conn.Write`, not on a receive path: the CONNECTION_CLOSE datagram (the known
+    finding `send_loop_wire_bound_witness`).
+Anything else — a `sendQueue.Send` / `conn.Write` / `SentPacket` in a frame handler, a call of a sending function
+from the receive path or from a timer — adds an element, makes this theorem, and with it the check, fail. -/
 theorem send_loop_shape :
-    Uquic.Gen.AmpShape.registeringFunctions = ["registerPackedShortHeaderPacket", "sendPackedCoalescedPacket"] ∧
-    Uquic.Gen.AmpShape.sendersOutsideTriggerSending =
-      ["handleShortHeaderPacket->registerPackedShortHeaderPacket", "run->triggerSending"] ∧
-    Uquic.Gen.AmpShape.directWriters = ["sendConnectionClose"] := by decide
+    Uquic.Gen.AmpShape.outsideSends = ["other:wire:Write", "recv1rtt:register", "recv1rtt:wire:SendProbe"] := by decide
 
 /-- the observable statement for the loop, FULL form: every datagram the connection writes while the
 client's address is unvalidated leaves strictly below the limit.  FALSE for the unchanged code, because
